@@ -159,6 +159,7 @@ impl Property for P {
             40 => only_endings,
             10 => gen::repeated(gen::token_text(mix.no_endings(), 6)),
             1 => gen::long_text(mix),
+            1 => gen::scaled_text_and_width(mix, 3000).prop_map(|(t, _)| t),
         ];
         // (class, variant a, variant b) for each indent
         let ind = (0..CLASSES.len(), any::<u16>(), any::<u16>());
